@@ -326,6 +326,30 @@ impl FreeSpaceManager {
     }
 }
 
+#[cfg(feoxdb_verif)]
+impl FreeSpaceManager {
+    /// Free runs as (start, size) from the address-ordered and the size-ordered index.
+    #[allow(clippy::type_complexity)]
+    pub fn verif_runs(&self) -> (Vec<(u64, u64)>, Vec<(u64, u64)>) {
+        (
+            self.by_start
+                .iter()
+                .map(|(start, space)| {
+                    debug_assert_eq!(*start, space.start);
+                    (space.start, space.size)
+                })
+                .collect(),
+            self.by_size
+                .iter()
+                .map(|((size, start), space)| {
+                    debug_assert_eq!((*size, *start), (space.size, space.start));
+                    (space.start, space.size)
+                })
+                .collect(),
+        )
+    }
+}
+
 impl Default for FreeSpaceManager {
     fn default() -> Self {
         Self::new()
